@@ -175,6 +175,18 @@ def bidx(shape, i, j):
 
 # ---- shape classes ---------------------------------------------------------
 DIMS = [2, 3, 4, 5, 7]
+DIM_WEIGHTS = {"quick": [5, 5, 4, 2, 1], "thorough": [1, 1, 1, 1, 1]}   # parsing a 7x7 literal costs ~10 scalar evaluations
+_tier = ["quick"]
+
+
+def pick_dims(rng, k=2):
+    w = DIM_WEIGHTS[_tier[0]]
+    out = []
+    while len(out) < k:
+        d = rng.choices(DIMS, weights=w)[0]
+        if d not in out:
+            out.append(d)
+    return out
 CLASSES = ["S", "M11", "R", "C", "Q", "T"]
 COMPAT = ([("S", c) for c in CLASSES] + [(c, "S") for c in CLASSES if c != "S"] +
           [(c, c) for c in CLASSES if c != "S"] +
@@ -187,7 +199,7 @@ def inst(cls, n, m):
 
 
 def compat_shapes(ca, cb, rng, dims=None):
-    n, m = dims if dims else rng.sample(DIMS, 2)
+    n, m = dims if dims else pick_dims(rng)
     sa = inst(ca, n, m)
     # vectors matching a T = m x n matrix: row 1 x n, column m x 1
     def vec(cls, other):
@@ -207,7 +219,7 @@ def compat_shapes(ca, cb, rng, dims=None):
 
 def incompat_shapes(rng):
     """a pair of shapes the operators must reject, with a label"""
-    n, m, p = rng.sample(DIMS, 3)
+    n, m, p = pick_dims(rng, 3)
     choices = [
         ("M11-R", (1, 1), (1, n)), ("M11-C", (1, 1), (n, 1)), ("M11-Q", (1, 1), (n, n)), ("M11-T", (1, 1), (m, n)),
         ("R-M11", (1, n), (1, 1)), ("C-M11", (n, 1), (1, 1)), ("Q-M11", (n, n), (1, 1)), ("T-M11", (m, n), (1, 1)),
@@ -396,6 +408,7 @@ def special_case(op, sym, k, ca, cb, rng, unary=False):
 
 def generate(tier, rng):
     quick = tier == "quick"
+    _tier[0] = "quick" if quick else "thorough"
     per = 8 if quick else 24
     reps = 1 if quick else 4
     budget = 4 if quick else 6
@@ -449,7 +462,7 @@ def generate(tier, rng):
                 continue
             for ca in CLASSES:
                 for _ in range(reps):
-                    n, m = rng.sample(DIMS, 2)
+                    n, m = pick_dims(rng)
                     emit(make_case(op, sym, k, inst(ca, n, m), "s", rng, "unary", ca, unary=True, budget=budget))
     # 3. incompatible shapes: must be errors
     ninc = 3 if quick else 12
